@@ -210,6 +210,26 @@ func runC19(e *Env) error {
 		h2 := rep2(msg)
 		e.Add(Case{Coq: fmt.Sprintf("CSha %s %s", CoqBytes(msg), CoqBytes(h2[:])), Kind: "sha256_repeat", NonTrivial: true, JSON: map[string]interface{}{"fn": "hashing.Sha256Repeat()(msg), same object as the previous case", "len": ln}})
 	}
+	// XorBytes32
+	for i := 0; i < 24; i++ {
+		var a, b [32]byte
+		copy(a[:], r.Bytes(32))
+		copy(b[:], r.Bytes(32))
+		switch i {
+		case 0:
+			b = a
+		case 1:
+			b = [32]byte{}
+		case 2:
+			for j := range b {
+				b[j] = 0xff
+			}
+		case 3:
+			a[31], b[31], a[0], b[0] = 0x80, 0x01, 0xff, 0xff
+		}
+		x := hashing.XorBytes32(a, b)
+		e.Add(Case{Coq: fmt.Sprintf("CXor %s %s %s", CoqBytes(a[:]), CoqBytes(b[:]), CoqBytes(x[:])), Kind: "xor_bytes32", NonTrivial: a != b, JSON: map[string]interface{}{"fn": "hashing.XorBytes32", "a": fmt.Sprintf("%x", a), "b": fmt.Sprintf("%x", b), "go": fmt.Sprintf("%x", x)}})
+	}
 	// Merkle branches
 	nm := e.N(120, 1500)
 	for i := 0; i < nm; i++ {
